@@ -639,12 +639,27 @@ def r32_order_agree(ctx):
             rep.anchor(rule, "ordered subtractions")
 
             def rng(block):
+                """(sign with which the year range enters, its arguments)"""
                 for st in block:
-                    if isinstance(st, ast.AugAssign) and isinstance(
-                            st.value, ast.Call) and "get_days_in_year_range" \
-                            in U(st.value.func):
-                        return (type(st.op), [U(x).replace(" ", "")
-                                              for x in st.value.args])
+                    if not isinstance(st, (ast.AugAssign, ast.Assign)):
+                        continue
+                    calls = [c for c in ast.walk(st.value) if isinstance(
+                        c, ast.Call) and "get_days_in_year_range" in U(c.func)]
+                    if len(calls) != 1:
+                        continue
+                    c = calls[0]
+                    sign = None
+                    if isinstance(st, ast.AugAssign) and st.value is c:
+                        sign = type(st.op)
+                    elif isinstance(st, ast.Assign):
+                        p_ = parent(c)
+                        if isinstance(p_, ast.BinOp) and p_ is st.value:
+                            if isinstance(p_.op, ast.Add):
+                                sign = ast.Add
+                            elif isinstance(p_.op, ast.Sub) and p_.right is c:
+                                sign = ast.Sub
+                    if sign is not None:
+                        return (sign, [U(x).replace(" ", "") for x in c.args])
                 return None
             tb, fb = rng(n.body), rng(n.orelse)
             ok = tb == (ast.Add, [small, big + "-1"]) and \
